@@ -363,4 +363,5 @@ func (sp *ServerPool) InjectResiliencePolicy(policies map[string]resilience.Poli
   flag frame=unchecked
   requires sp != nil && sp.spec != nil
   requires policies-are-objects: forall k string :: k in policies ==> ifaceVal(policies[k]) != 0
+  requires circuit-breaker-policies-passed-validation: forall k string :: k in policies && typeIs(policies[k], "*resilience.CircuitBreakerPolicy") ==> resilience.cbDomain(as(policies[k], "*resilience.CircuitBreakerPolicy"))
 @*/
